@@ -66,6 +66,40 @@ CM = "openpectus.engine.command_manager:CommandManager"
 TR = "openpectus.lang.exec.tracking:Tracking"
 
 
+def _deferred_finalization_ok(ctx, prog, res) -> bool:
+    """A command that was cancelled (command.cancel(), Cancelled recorded when tracking accepts it) but not finalized, and whose
+    request stays in the executing list, is finalized by the command loop in the next tick iff
+      * the gate of _execute_command retires a concluded request and finalizes the live command that carries the request's instance
+        id (cmdgate + the own-instance finalize in the concluded branch), and
+      * for a request that is not concluded (tracking refused the mark) both executors finalize a command that is_cancelled()."""
+    from ..cmdgate import concluded_gate
+    gate_ok, ecf, disp = concluded_gate(prog, res)
+    if not gate_ok:
+        return False
+    ge = cfg_of(ecf)
+    rpar = ecf.node.args.args[1].arg
+    fins = [n for n in ge.nodes if n.ast is not None and any(call_attr(c) in ("_finalize_command", "finalize") for c in n.calls())]
+    own = [n for n in fins if any(("instance_id" in norm(e) and rpar in norm(e) and pol) for e, pol in ge.conditions_at(n))]
+    if not own:
+        return False
+    for nm in ("_execute_uod_command", "_execute_internal_command"):
+        k = prog.func(f"{CM}.{nm}")
+        gk = cfg_of(k)
+        tests = [n for n in gk.nodes if n.kind == "test" and isinstance(n.ast, ast.Call) and call_attr(n.ast) == "is_cancelled"]
+        if not tests:
+            return False
+        for t in tests:
+            # from the cancelled outcome every path to an exit finalizes (or finds the command already finalized)
+            def done(sid, dd, lab, gk=gk):
+                nn = gk.nodes[sid]
+                return nn.kind == "test" and norm(nn.ast).endswith(".is_finalized()") and lab == "T"
+            pth = gk.search([(t.id, "T")], lambda n: n.id in (gk.exit.id, gk.raise_exit.id), blocked=lambda n: n.ast is not None and any(
+                call_attr(c) in ("_finalize_command", "finalize") for c in n.calls()), blocked_edge=done, follow_exc=False)
+            if pth is not None:
+                return False
+    return True
+
+
 def _never_forcible(prog, visitor):
     """Name of the node class of a visit_<Class> method if no instance of it is ever offered as forcible: the first __init__ along
     its MRO that assigns self._forcible assigns the constant False, nothing else assigns it, and `forcible` is not overridden."""
@@ -310,6 +344,15 @@ def run(ctx) -> None:
     for t in tests:
         inst = "cancel_instruction: command instance is finalized on every accepting path"
         p = gci.search([(t.id, "T")], lambda n: n.id == gci.exit.id, blocked=finalizes, blocked_edge=nothing_left, follow_exc=False)
+        p2 = None
+        if p is not None and _deferred_finalization_ok(ctx, prog, res):
+            # the path cancels through _cancel_command without finalizing at once: the request stays in the executing list and the
+            # command is finalized in the next tick, by the gate of _execute_command or by the executor's is_cancelled branch
+            p2 = gci.search([(t.id, "T")], lambda n: n.id == gci.exit.id, blocked=lambda n: finalizes(n) or any(
+                call_attr(c) == "_cancel_command" for c in n.calls()), blocked_edge=nothing_left, follow_exc=False)
+            if p2 is None:
+                ctx.ok("R12d", inst + " (at once, or in the next tick by the command loop)", {"rule": "R12d", "deferred": True})
+                continue
         if p is None:
             ctx.ok("R12d", inst)
         else:
